@@ -263,4 +263,8 @@ theorem position (ks : Knots) (hne : ks ≠ []) (t : Rat) :
           · right; exact ⟨(tk, fk) :: pre, a, fa, by rw [e]; rfl, h1⟩
 
 
+theorem getD_map_neg (xs : List Rat) (k : Nat) : (xs.map (- ·)).getD k 0 = - xs.getD k 0 := by
+  simp only [List.getD_eq_getElem?_getD, List.getElem?_map]
+  cases xs[k]? <;> simp
+
 end RtcVerif.C16
